@@ -73,6 +73,99 @@ theorem getOp_none (s : Bytes) (h : getOp s = none) :
     · cases h
     · omega
 
+/-! ### T2 for btclib's offset-based reader -/
+
+/-- the spans of a list of instructions laid out from offset `pos` -/
+def spansOf : List Op → Nat → List (Nat × Nat × Nat)
+  | [], _ => []
+  | op :: r, pos => (op.code, pos, pos + op.raw.length) :: spansOf r (pos + op.raw.length)
+
+theorem drop_cons_of (s : Bytes) (start : Nat) (c : UInt8) (r : Bytes) (h : s.drop start = c :: r) :
+    s.getD start 0 = c ∧ s.drop (start + 1) = r ∧ r.length + start + 1 = s.length := by
+  have hl : start < s.length := by
+    by_cases hl : start < s.length
+    · exact hl
+    · rw [List.drop_eq_nil_of_le (by omega)] at h; cases h
+  refine ⟨?_, ?_, ?_⟩
+  · have := List.getElem_cons_drop hl
+    rw [← this] at h
+    have hc : s[start] = c := by injection h
+    rw [List.getD_eq_getElem?_getD, List.getElem?_eq_getElem hl]; simpa using hc
+  · have := List.getElem_cons_drop hl
+    rw [← this] at h
+    injection h
+  · have := congrArg List.length h
+    simp only [List.length_drop, List.length_cons] at this
+    omega
+
+/-- btclib's offset-based `read_op_code` reads what Core's `GetOp` reads from the same place -/
+theorem readOpCode_eq_getOp (s : Bytes) (start : Nat) :
+    readOpCode s start = (getOp (s.drop start)).map fun p => (p.1.code, start + p.1.raw.length) := by
+  unfold readOpCode
+  by_cases hs : start ≥ s.length
+  · simp [hs, List.drop_eq_nil_of_le hs, getOp]
+  · simp only [hs, if_false]
+    cases hd : s.drop start with
+    | nil =>
+      have := congrArg List.length hd
+      simp at this; omega
+    | cons c r =>
+      obtain ⟨hc, hr, hlen⟩ := drop_cons_of s start c r hd
+      simp only [hc, hr, getOp]
+      by_cases h1 : c.toNat = 0 ∨ c.toNat > 78
+      · have : ¬ (0 < c.toNat ∧ c.toNat ≤ 78) := by omega
+        simp [h1, this]
+      · have h1' : 0 < c.toNat ∧ c.toNat ≤ 78 := by omega
+        simp only [h1, h1', if_false, if_true, and_self]
+        by_cases h2 : c.toNat < 76
+        · have : ¬ c.toNat > 75 := by omega
+          simp only [h2, this, if_true, if_false]
+          by_cases h3 : r.length < c.toNat
+          · have : start + 1 + c.toNat > s.length := by omega
+            simp [h3, this]
+          · have : ¬ start + 1 + c.toNat > s.length := by omega
+            simp [h3, this, List.length_take]; omega
+        · have : c.toNat > 75 := by omega
+          simp only [h2, this, if_true, if_false]
+          generalize 2 ^ (c.toNat - 76) = w
+          by_cases h3 : r.length < w
+          · have : start + 1 + w > s.length := by omega
+            simp [h3, this]
+          · have h3' : ¬ start + 1 + w > s.length := by omega
+            simp only [h3, h3', if_false]
+            simp only [List.length_drop]
+            by_cases h4 : r.length - w < ofLE (r.take w)
+            · have : start + 1 + w + ofLE (r.take w) > s.length := by omega
+              simp [h4, this]
+            · have : ¬ start + 1 + w + ofLE (r.take w) > s.length := by omega
+              simp [h4, this, List.length_take]
+              omega
+
+theorem opCodeSpansFrom_eq (fuel : Nat) (s : Bytes) (start : Nat) :
+    opCodeSpansFrom fuel s start = spansOf (parseOps fuel (s.drop start)).1 start := by
+  induction fuel generalizing start with
+  | zero => simp [opCodeSpansFrom, parseOps, spansOf]
+  | succ f ih =>
+    unfold opCodeSpansFrom parseOps
+    rw [readOpCode_eq_getOp]
+    cases hg : getOp (s.drop start) with
+    | none => simp [spansOf]
+    | some p =>
+      obtain ⟨op, rest⟩ := p
+      have hsp := (getOp_spec _ op rest hg).1
+      have hrest : rest = s.drop (start + op.raw.length) := by
+        have : (s.drop start).drop op.raw.length = rest := by rw [← hsp]; simp
+        rw [← this, List.drop_drop]
+      simp only [Option.map_some, spansOf]
+      rw [ih, ← hrest]
+
+/-- T2 for btclib's reader: `op_code_spans` yields exactly the spans of Core's `GetOp` walk -/
+theorem opCodeSpans_eq (s : Bytes) : opCodeSpans s = spansOf (parse s).1 0 := by
+  unfold opCodeSpans parse
+  have := opCodeSpansFrom_eq s.length s 0
+  simpa using this
+
+
 namespace Core
 
 /-! ### one step -/
